@@ -188,6 +188,20 @@ impl World {
         }
     }
 
+    // number of distinct non-reference values `dim_value` can report for dimension d
+    pub fn dim_cardinality(d: usize) -> u64 {
+        match DIMS[d] {
+            "rand" | "malloc_tun" | "merged" | "decoys" | "uid" => 1,
+            "heap_pad" | "stack" | "file_name" | "rust_backtrace" | "pid" | "sig" | "umask" => 3,
+            "env_pad" | "rel" | "argv0" | "env_kind" | "clock" | "fds" => 2,
+            "cwd_name" | "locale" | "stdin" | "script_mode" => 4,
+            "stdout" | "stderr" => 5,
+            "env_bytes" => 6,
+            "spelling" => 7,
+            _ => 0,
+        }
+    }
+
     pub fn differs_from_reference(&self, d: usize) -> bool {
         let mut r = self.clone();
         r.reset_dim(d);
